@@ -268,6 +268,122 @@ def run(seed=0, tier="quick", aimed=None, which=("c08", "c09")):
 
 
 
+def make_interaction(name, dim, r, reset, axis_sign=1.0):
+    """a real simulator + a real body + its interaction object (cyl2d / rod2d: edge grid / sphere3d / rod3d: surface grid)"""
+    import sopht.simulator as sps
+
+    n = 40 if dim == 2 else 20
+    shape = (n, n + 4) if dim == 2 else (n, n + 2, n + 4)
+    if dim == 2:
+        sim = sps.UnboundedNavierStokesFlowSimulator2D(grid_size=shape, x_range=1.0, kinematic_viscosity=1e-2, with_forcing=True, real_t=np.float64)
+    else:
+        sim = sps.UnboundedNavierStokesFlowSimulator3D(grid_size=shape, x_range=1.0, kinematic_viscosity=1e-2, with_forcing=True, real_t=np.float64)
+    sim.velocity_field[...] = r.normal(size=sim.velocity_field.shape)
+    centre = np.array([0.5 * sim.x_range, 0.5 * sim.y_range, 0.5 * getattr(sim, "z_range", 0.0)])
+    kw = dict(eul_grid_forcing_field=sim.eul_grid_forcing_field, eul_grid_velocity_field=sim.velocity_field,
+              virtual_boundary_stiffness_coeff=-float(r.uniform(1e2, 1e3)), virtual_boundary_damping_coeff=-float(r.uniform(1, 10)),
+              dx=sim.dx, grid_dim=dim, real_t=np.float64, enable_eul_grid_forcing_reset=reset)
+    if name == "cyl2d":
+        body = ea.Cylinder(start=np.array([centre[0], centre[1], -0.05 * axis_sign]), direction=np.array([0.0, 0, axis_sign]), normal=np.array([1.0, 0, 0]),
+                           base_length=0.1, base_radius=0.15, density=1e3)
+        it = spi.RigidBodyFlowInteraction(rigid_body=body, forcing_grid_cls=spi.CircularCylinderForcingGrid, num_forcing_points=24, **kw)
+    elif name == "sphere3d":
+        body = ea.Sphere(center=centre.copy(), base_radius=0.2, density=1e3)
+        it = spi.RigidBodyFlowInteraction(rigid_body=body, forcing_grid_cls=spi.SphereForcingGrid, num_forcing_points_along_equator=16, **kw)
+    else:
+        ne = 8
+        start = centre - np.array([0.25, 0.0, 0.0])
+        normal = np.array([0, 0, 1.0]) if (dim == 3 or axis_sign > 0) else np.array([0, 1.0, 0])
+        body = ea.CosseratRod.straight_rod(ne, start, np.array([1.0, 0, 0]), normal, 0.5, 0.03, 1000.0,
+                                           youngs_modulus=1e6, shear_modulus=4e5)
+        body.position_collection[1] += 0.02 * np.sin(np.linspace(0, 3, ne + 1))
+        d = body.position_collection[:, 1:] - body.position_collection[:, :-1]
+        body.lengths[:] = np.linalg.norm(d, axis=0); body.tangents[:] = d / body.lengths
+        gcls = spi.CosseratRodEdgeForcingGrid if dim == 2 else spi.CosseratRodSurfaceForcingGrid
+        gkw = {} if dim == 2 else {"surface_grid_density_for_largest_element": 6}
+        it = spi.CosseratRodFlowInteraction(cosserat_rod=body, forcing_grid_cls=gcls, **gkw, **kw)
+    return sim, body, it, shape
+
+
+def repose(r, name, body, dim):
+    """a new admissible state of the body: small displacement, new orientation, new velocities"""
+    if name.startswith("rod"):
+        body.position_collection[...] += r.normal(size=body.position_collection.shape) * 0.004
+        body.velocity_collection[...] = r.normal(size=body.velocity_collection.shape) * 0.3
+        n = body.n_elems
+        if dim == 2:
+            body.position_collection[2] = 0; body.velocity_collection[2] = 0
+            for e in range(n):
+                th = r.uniform(-0.4, 0.4)
+                Rz = np.array([[np.cos(th), -np.sin(th), 0], [np.sin(th), np.cos(th), 0], [0, 0, 1]])
+                body.director_collection[:, :, e] = body.director_collection[:, :, e] @ Rz.T
+                body.omega_collection[:, e] = body.director_collection[:, :, e] @ np.array([0.0, 0.0, r.normal()])
+        else:
+            for e in range(n):
+                body.director_collection[:, :, e] = rand_rot(r)
+            body.omega_collection[...] = r.normal(size=(3, n))
+        d = body.position_collection[:, 1:] - body.position_collection[:, :-1]
+        body.lengths[:] = np.linalg.norm(d, axis=0); body.tangents[:] = d / body.lengths
+    else:
+        body.position_collection[:, 0] += r.normal(size=3) * 0.004
+        body.velocity_collection[:, 0] = r.normal(size=3) * 0.3
+        if dim == 2:
+            body.position_collection[2, 0] = body.position_collection[2, 0]
+            body.velocity_collection[2, 0] = 0
+            th = r.uniform(-0.6, 0.6)
+            Rz = np.array([[np.cos(th), -np.sin(th), 0], [np.sin(th), np.cos(th), 0], [0, 0, 1]])
+            body.director_collection[:, :, 0] = body.director_collection[:, :, 0] @ Rz.T
+            body.omega_collection[:, 0] = body.director_collection[:, :, 0] @ np.array([0.0, 0.0, r.normal()])
+        else:
+            body.director_collection[:, :, 0] = rand_rot(r)
+            body.omega_collection[:, 0] = r.normal(size=3)
+
+
+def state_only(seed, tier):
+    """Histories of re-posing / interactor() / compute_flow_forces_and_torques() / time_step on REAL bodies: right after every
+    evaluation the forcing grid's marker positions and velocities must be those of the body's CURRENT state (a fresh
+    position-then-velocity evaluation gives the same arrays bit for bit), and the velocity mismatch entering the feedback law must
+    be `interpolated flow velocity - current marker velocity`."""
+    cases = 0
+    cfgs = [("cyl2d", 2, 1.0), ("cyl2d", 2, -1.0), ("rod2d", 2, 1.0), ("rod2d", 2, -1.0), ("sphere3d", 3, 1.0)] + ([("rod3d", 3, 1.0)] if tier != "quick" else [])
+    for ci, (name, dim, sgn) in enumerate(cfgs):
+        r = impl.rng(seed, "c10state", ci)
+        with warnings.catch_warnings():
+            warnings.simplefilter("ignore")
+            sim, body, it, shape = make_interaction(name, dim, r, bool(ci % 2), axis_sign=sgn)
+            g = it.forcing_grid
+            hist = []
+            for k in range(8 if tier == "quick" else 20):
+                op = ["pose", "lag", "pose", "call", "step", "pose", "lag", "call"][k % 8] if k < 8 else str(r.choice(["pose", "lag", "call", "step"]))
+                hist.append(op)
+                if op == "pose":
+                    repose(r, name, body, dim)
+                    continue
+                if op == "step":
+                    it.time_step(dt=float(r.uniform(1e-3, 1e-2)))
+                    continue
+                if op == "lag":
+                    it.compute_flow_forces_and_torques()
+                else:
+                    it()
+                cases += 1
+                P1, V1 = g.position_field.copy(), g.velocity_field.copy()
+                D1 = it.lag_grid_velocity_mismatch_field.copy()
+                U1 = it.lag_grid_flow_velocity_field.copy()
+                g.compute_lag_grid_position_field(); g.compute_lag_grid_velocity_field()
+                info = {"body": name, "dim": dim, "axis_or_normal_sign": sgn, "history": list(hist), "grid": list(shape)}
+                if P1.tobytes() != g.position_field.tobytes() or V1.tobytes() != g.velocity_field.tobytes():
+                    return cases, {"oracle": "c10_markers_of_current_state", **info,
+                                   "what": "after the evaluation the forcing grid's marker positions / velocities are not those of the body's current state "
+                                           "(a fresh position-then-velocity evaluation differs)",
+                                   "max_position_dev": float(np.abs(P1 - g.position_field).max()), "max_velocity_dev": float(np.abs(V1 - g.velocity_field).max())}
+                if np.abs(D1 - (U1 - g.velocity_field)).max() > 1e-12 * (1 + np.abs(U1).max() + np.abs(V1).max()):
+                    return cases, {"oracle": "c10_velocity_mismatch", **info,
+                                   "what": "velocity mismatch entering the feedback law != interpolated flow velocity - current marker velocity",
+                                   "max_dev": float(np.abs(D1 - (U1 - g.velocity_field)).max())}
+    return cases, None
+
+
 def pipeline(seed, tier):
     """End-to-end action = reaction on real simulators and interactors: after a full interaction call the grid
     integral of the force density spread to the fluid plus the net force handed to the body vanishes; FlowForces adds
@@ -280,37 +396,9 @@ def pipeline(seed, tier):
     cfgs = [("cyl2d", 2), ("rod2d", 2), ("sphere3d", 3), ("rod3d", 3)]
     for name, dim in cfgs:
         for reset in (True, False):
-            n = 40 if dim == 2 else 20
-            shape = (n, n + 4) if dim == 2 else (n, n + 2, n + 4)
             with warnings.catch_warnings():
                 warnings.simplefilter("ignore")
-                if dim == 2:
-                    sim = sps.UnboundedNavierStokesFlowSimulator2D(grid_size=shape, x_range=1.0, kinematic_viscosity=1e-2, with_forcing=True, real_t=np.float64)
-                else:
-                    sim = sps.UnboundedNavierStokesFlowSimulator3D(grid_size=shape, x_range=1.0, kinematic_viscosity=1e-2, with_forcing=True, real_t=np.float64)
-                sim.velocity_field[...] = r.normal(size=sim.velocity_field.shape)
-                centre = np.array([0.5 * sim.x_range, 0.5 * sim.y_range, 0.5 * getattr(sim, "z_range", 0.0)])
-                kw = dict(eul_grid_forcing_field=sim.eul_grid_forcing_field, eul_grid_velocity_field=sim.velocity_field,
-                          virtual_boundary_stiffness_coeff=-float(r.uniform(1e2, 1e3)), virtual_boundary_damping_coeff=-float(r.uniform(1, 10)),
-                          dx=sim.dx, grid_dim=dim, real_t=np.float64, enable_eul_grid_forcing_reset=reset)
-                if name == "cyl2d":
-                    body = ea.Cylinder(start=np.array([centre[0], centre[1], -0.05]), direction=np.array([0.0, 0, 1]), normal=np.array([1.0, 0, 0]),
-                                       base_length=0.1, base_radius=0.15, density=1e3)
-                    it = spi.RigidBodyFlowInteraction(rigid_body=body, forcing_grid_cls=spi.CircularCylinderForcingGrid, num_forcing_points=24, **kw)
-                elif name == "sphere3d":
-                    body = ea.Sphere(center=centre.copy(), base_radius=0.2, density=1e3)
-                    it = spi.RigidBodyFlowInteraction(rigid_body=body, forcing_grid_cls=spi.SphereForcingGrid, num_forcing_points_along_equator=16, **kw)
-                else:
-                    ne = 8
-                    start = centre - np.array([0.25, 0.0, 0.0])
-                    body = ea.CosseratRod.straight_rod(ne, start, np.array([1.0, 0, 0]), np.array([0, 0, 1.0]), 0.5, 0.03, 1000.0,
-                                                       youngs_modulus=1e6, shear_modulus=4e5)
-                    body.position_collection[1] += 0.02 * np.sin(np.linspace(0, 3, ne + 1))
-                    d = body.position_collection[:, 1:] - body.position_collection[:, :-1]
-                    body.lengths[:] = np.linalg.norm(d, axis=0); body.tangents[:] = d / body.lengths
-                    gcls = spi.CosseratRodEdgeForcingGrid if dim == 2 else spi.CosseratRodSurfaceForcingGrid
-                    gkw = {} if dim == 2 else {"surface_grid_density_for_largest_element": 6}
-                    it = spi.CosseratRodFlowInteraction(cosserat_rod=body, forcing_grid_cls=gcls, **gkw, **kw)
+                sim, body, it, shape = make_interaction(name, dim, r, reset, axis_sign=(1.0 if reset else -1.0))
                 body.velocity_collection[...] = r.normal(size=body.velocity_collection.shape) * 0.3
                 body.omega_collection[...] = r.normal(size=body.omega_collection.shape) * 0.3
                 if dim == 2:
